@@ -156,6 +156,32 @@ class FactEngine:
         self.prog = prog
         self.calls = calls
         self._cache: Dict[Tuple[int, FrozenSet], 'FuncFacts'] = {}
+        self._derive_live_tables()
+
+    def _derive_live_tables(self) -> None:
+        """Which labels / state classes are live (non-empty ALLOWED) is read from the source, not assumed."""
+        global LIVE, TERMINAL, LIVE_STATE_CLASSES
+        base = self.prog.cls('base.state_machine.State')
+        live_classes, live, terminal = set(), set(), set()
+        for c in self.prog.all_classes():
+            if c is base or not c.is_subclass_of(base):
+                continue
+            la = c.lookup_attr('LABEL')
+            al = c.lookup_attr('ALLOWED')
+            if la is None or al is None:
+                continue
+            lbl = self.prog.fold(la[0].module, la[1], la[0])
+            allowed = self.prog.fold(al[0].module, al[1], al[0])
+            if not isinstance(lbl, EnumMember) or allowed is UNKNOWN:
+                continue
+            if allowed:
+                live_classes.add(c.qualname)
+                live.add(lbl.member)
+            else:
+                terminal.add(lbl.member)
+        if not live or not terminal or live & terminal:
+            raise AnalysisError(f'cannot derive live/terminal state tables (live={live}, terminal={terminal})')
+        LIVE, TERMINAL, LIVE_STATE_CLASSES = tuple(sorted(live)), tuple(sorted(terminal)), live_classes
 
     def analyse(self, func: FuncInfo, entry: Iterable[Atom] = ()) -> 'FuncFacts':
         entry_fs = frozenset(entry) | frozenset(self.decorator_facts(func))
